@@ -317,6 +317,18 @@ pub fn run(args: &Args) {
                 {"op": "tokenize", "text": "あ".repeat(20000), "mode": null, "out": true}, {"op": "tokenize", "text": "東京都", "mode": null, "out": true}]}),
             json!({"mode": "A", "fields": ["dictionary_form"], "projection": "dictionary", "ops": [{"op": "tokenize", "text": "👍🏻é東京都に行った", "mode": null, "out": false}]}),
         ];
+        // directed: every creation mode x small field requests (with and without the split lists) x every per-call override,
+        // the override being the FIRST call of the tokenizer, then a default call, then the override again
+        for m0 in ["A", "B", "C"] {
+            for fields in [json!([]), json!(["surface"]), json!(["pos"]), json!(["split_a"]), json!(["normalized_form", "reading_form"])] {
+                for ov in ["A", "B", "C"] {
+                    v.push(json!({"mode": m0, "fields": fields, "projection": null, "ops": [
+                        {"op": "tokenize", "text": "東京都に行った高輪ゲートウェイ駅", "mode": ov, "out": false},
+                        {"op": "tokenize", "text": "東京都に行った高輪ゲートウェイ駅", "mode": null, "out": true},
+                        {"op": "tokenize", "text": "京都東京都", "mode": ov, "out": true}]}));
+                }
+            }
+        }
         for _ in 0..args.n(250, 4000) {
             v.push(gen_session(&mut rng));
         }
